@@ -6,6 +6,8 @@ import (
 	"encoding/json"
 	"errors"
 	"fmt"
+	"github.com/cloudwego/gopkg/protocol/thrift"
+	"github.com/cloudwego/gopkg/protocol/thrift/base"
 	"io"
 	"math"
 
@@ -184,6 +186,8 @@ type c19Case struct {
 
 type c19RL struct {
 	Full      bool  `json:"wrapped_object_is_itself_a_transport,omitempty"`
+	LenOnly   bool  `json:"wrapped_object_has_Len_but_not_ReadableLen,omitempty"`
+	Two       bool  `json:"second_transport_created_after_close_of_the_first,omitempty"`
 	HasMethod bool  `json:"has_readable_len"`
 	N         int   `json:"readable_len"`
 	Later     []int `json:"later_values,omitempty"` // the wrapped object's readable length changes after it was wrapped
@@ -220,6 +224,16 @@ type fullTRL struct{ *fullT }
 
 func (r fullTRL) ReadableLen() int { return r.rl }
 
+// lenRW has a Len() method (like bytes.Buffer, strings.Reader, ring buffers) but NOT the ReadableLen() the generic transport
+// looks for: its remaining-bytes figure is "unknown"
+type lenRW struct{ b *bytes.Buffer }
+
+func (r lenRW) Read(p []byte) (int, error)  { return r.b.Read(p) }
+func (r lenRW) Write(p []byte) (int, error) { return r.b.Write(p) }
+func (r lenRW) Len() int                    { return r.b.Len() + 5 }
+func (r lenRW) Size() int64                 { return 77 }
+func (r lenRW) Available() int              { return 9 }
+
 type plainRW struct{ b *bytes.Buffer }
 
 func (r plainRW) Read(p []byte) (int, error)  { return r.b.Read(p) }
@@ -243,9 +257,26 @@ func c19ReadableLen(c *mc.Ctx, k c19RL) {
 		} else if k.HasMethod {
 			x := &rwLen{n: k.N}
 			rw, inner = x, &x.buf
+		} else if k.LenOnly {
+			inner = bytes.NewBufferString("0123456789")
+			rw = lenRW{inner}
 		} else {
 			inner = &bytes.Buffer{}
 			rw = plainRW{inner}
+		}
+		if k.Two {
+			// an earlier generic transport over ANOTHER object was closed (twice) before this one was created, and is used
+			// again afterwards: the two handles stay independent
+			otherBuf := &bytes.Buffer{}
+			other := apache.NewDefaultTransport(&rwLen{n: 1234})
+			other.Close()
+			other.Close()
+			defer func() {
+				_ = otherBuf
+				if got := other.RemainingBytes(); got != 1234 {
+					bad("handles-mixed", "a generic transport that was closed earlier now reports RemainingBytes() = %d, its wrapped object says 1234: it shares state with a transport created later", got)
+				}
+			}()
 		}
 		t := apache.NewDefaultTransport(rw)
 		want := ^uint64(0)
@@ -268,6 +299,9 @@ func c19ReadableLen(c *mc.Ctx, k c19RL) {
 					return
 				}
 			}
+		}
+		if k.LenOnly {
+			return
 		}
 		if n, err := t.Write([]byte("xyz")); n != 3 || err != nil || inner.String() != "xyz" {
 			bad("passthrough", "Write does not pass through to the wrapped object")
@@ -442,7 +476,13 @@ func c19Callbacks(c *mc.Ctx, k c19CB) {
 			case 2:
 				reg(0)
 			case 3:
-				arg := &struct{ X int }{si}
+				var arg interface{} = &struct{ X int }{si}
+				switch si % 3 { // values that are FastCodecs themselves must reach the callback all the same
+				case 1:
+					arg = thrift.NewApplicationException(int32(si), "arg")
+				case 2:
+					arg = &base.Base{LogID: "arg"}
+				}
 				rd := bufiox.NewBytesReader([]byte{1, 2, 3})
 				var target []byte
 				wr := bufiox.NewBytesWriter(&target)
@@ -532,9 +572,12 @@ func c19Run(c *mc.Ctx) {
 	c.Sample("history", []string{"Twrite(2)", "Bread(1)", "Tclose(0)", "Bwrite(1)", "Tread(200)"})
 	if c.Mine() {
 		c19ReadableLen(c, c19RL{HasMethod: false})
+		c19ReadableLen(c, c19RL{LenOnly: true})
+		c19ReadableLen(c, c19RL{HasMethod: false, Two: true})
 		c19ReadableLen(c, c19RL{Full: true})
 		for _, n := range []int{math.MinInt, -2, -1, 0, 1, 2, 4096, math.MaxInt} {
 			c19ReadableLen(c, c19RL{HasMethod: true, N: n})
+			c19ReadableLen(c, c19RL{HasMethod: true, N: n, Two: true})
 			c19ReadableLen(c, c19RL{Full: true, HasMethod: true, N: n})
 			for _, later := range [][]int{{5}, {0, 7}, {-1, 3, 0}, {9, -2, 1}} {
 				c19ReadableLen(c, c19RL{HasMethod: true, N: n, Later: later})
